@@ -29,7 +29,7 @@ claimed = {
  'C17': ('exploration','script->unspent outpoints from the model vs address multimap, get_address_info and recorded script/value','reference-model oracle'),
  'C18': ('exploration','the real explorer router driven in-process at quiescent points: every inscription, inscribed/runic output, inscribed sat and block on the JSON and recursive routes, all pages, negative sat indices; fields compared with stored entries, the reference model and creation order','response-vs-model oracle'),
  'C19': ('exploration','content, undelegated-content, preview and sat-relative content routes for every inscription under server options {csp origin, decompress, hidden set}; body, content type, encoding rule, CSP on every response, hidden bodies never served, relative content never immutable','response-vs-chain-data oracle'),
- 'C21': ('exploration','real `ord wallet batch` run in-process with generated batch files (separate-outputs, shared-output, same-sat; parents, postage, foreign destinations, delegate, metadata) against the simulated node; commit and reveal are mined (same or consecutive blocks), indexed by the real indexer and settled: reported ids = ids created by the reveal, reported locations and destinations = indexed ones, parents back in the wallet, commit spends no inscribed or runic output. Satpoints mode and etching are not driven yet','settlement oracle on the real indexer'),
+ 'C21': ('exploration','real `ord wallet batch` run in-process with generated batch files (separate-outputs, shared-output, same-sat with `sat` / `satpoint` / `reinscribe`, satpoints mode; parents, postage, foreign destinations, delegate, metadata, an etching with premine and terms) against the simulated node, which mines a block every n-th poll while the wallet waits for the rune commitment to mature; commit and reveal are mined, indexed by the real indexer and settled: reported ids = ids created by the reveal, reported locations and destinations = indexed ones, targeted sat inscribed, parents back in the wallet, commit spends no other inscribed or runic output, the named rune exists with the requested premine, divisibility and terms and the premine sits at the reported output','settlement oracle on the real indexer'),
  'C22': ('exploration','real `ord wallet send/burn/split` rune commands run in-process against the simulated node and the in-process explorer; every broadcast transaction is mined, indexed by the real indexer and settled: recipient amounts, burned deltas, remainders back to the wallet, zero requests rejected','settlement oracle on the real indexer'),
  'C23': ('exploration','node-funded wallet commands against a node whose fundrawtransaction picks any unlocked wallet output, trying inscribed and runic outputs first; every input of every broadcast transaction audited against the reference model','adversarial-peer oracle'),
  'C24': ('exploration','real `ord wallet offer accept` run in-process on generated PSBTs (valid offers and offers deviating in one or two respects, wallet input at any position, foreign signatures in witness or script sig) against a simulated node whose signing replies are faulted (foreign signature changed by walletprocesspsbt or by finalizepsbt, moved into the script sig, extra or missing input); every PSBT handed to the node for signing and every transaction handed to sendrawtransaction is audited against the reference model and the PSBT as presented','adversarial-peer oracle (counterparty PSBT + faulted signing replies)'),
